@@ -221,6 +221,14 @@ def run_linsolve(case, ctx, rng):
                 A = (A2 + A2.conj().T) / 2
                 ctx.count("definiteness_switches")
         b = _rhs(rng, n, form, np.iscomplexobj(b))
+        if rep == 1 and form in ("v", "c1", "blk") and rng.random() < 0.35:
+            # the number of load cases changes between two evaluations of the same module (a load case added or dropped, a block
+            # replaced by a single vector): the solution of the previous evaluation has another shape
+            ks = [kk for kk in (None, 1, 2, 5) if kk != {"v": None, "c1": 1, "blk": 3}[form]]
+            kk = ks[int(rng.integers(len(ks)))]
+            b2 = rng.standard_normal(n if kk is None else (n, kk))
+            b = b2 + 1j * rng.standard_normal(b2.shape) if np.iscomplexobj(b) else b2
+            ctx.count("linsolve_number_of_load_cases_changed_between_responses")
         _set_matrix(sA, matgen.to_storage(A, st), rng, ctx)
         sb.state = b
         tol = max(tol, 1e-13 * cond * 16)
